@@ -19,12 +19,14 @@ TRUSTED = ['correspondence harness (pv.engine, pv.proto, pv.props._w5ts) and gen
 ASSUMPTIONS = ['pandas arithmetic of two Series on one index is pointwise with NaN absorbing, a scalar broadcasts, x/NaN = NaN (reference kernel of PygModel/Ops.lean, sampled)',
                'alignment is the model of C03 (Index.intersection/union, reindex, as-of fill)',
                'values are exact multiples of 1/4 and divisors powers of two (means: multiples of 3/4), so no rounded float is ever compared; float rounding is not modelled',
-               'DataFrames: `DataFrame.reindex(index[, method])` picks one source row per label for all columns (after `_nona` dropped the all-NaN rows when a fill '
-               'method is given); `pd.DataFrame(dict of Series)`; the name of `x op y` is the common Series name or None (PygModel/OpsF.lean, sampled)',
+               'DataFrames: without a fill method `DataFrame.reindex(index)` reads the row of the label; with ffill / bfill the repaired `_df_reindex` (C03-A2) joins '
+               'every column as-of on its OWN non-NaN observations (model `lookF`: the source row of the one-column frame of the column) and concatenates; '
+               '`pd.DataFrame(dict of Series)`; the name of `x op y` is the common Series name or None (PygModel/OpsF.lean, sampled)',
                'comparisons with NaN are False, np.minimum/np.maximum propagate NaN, x**0 = 1 and 1**y = 1 also for NaN (PygModel/OpsX.lean, sampled)',
-               'not modelled: frames with duplicate column names / numpy arrays (positional columns), the column policies lj/rj, the object-dtype empty `pd.Series({})` '
-               '(no common column) fed on into an operator with a fill method, DataFrame operands of pow_/comparisons/min_/max_, negative or fractional exponents, '
-               'df_std, float rounding; aggregates over a mix of frames and Series / one-column frames are checked against the statement only (aggx, known finding C08-A1)',
+               'not modelled: frames with duplicate column names / numpy arrays (positional columns), the object-dtype empty `pd.Series({})` '
+               '(no common column) fed on into an operator with a fill method, ONE-column frames as operands of min_/max_ (mmx lines: statement only, known finding '
+               'C08-A2), negative or fractional exponents, df_std, float rounding; aggregates over a mix of frames and Series / one-column frames are checked '
+               'against the statement only (aggx, known finding C08-A1). Modelled since round g2: column policies lj/rj, DataFrame operands of pow_ / comparisons / min_ / max_',
                'aggregates: a scalar operand counts at every timestamp / in every cell, a NaN scalar never (PygModel/Ops.lean aggregate, OpsF.lean aggregateFS, sampled)']
 S = 4
 nan = float('nan')
@@ -733,6 +735,12 @@ def check_mm_mixed(name, xs):
     return None
 
 
+A1_NAN_ROW = 'is NaN / 0 throughout although an operand has data there'
+A1_ODD_COLUMNS, A1_ODD_COLUMNS_END = ': the result has columns ', ' that no operand has'
+A2_BOTH_NAMES = ' of one-column operands has the columns '
+A2_NO_OBJECTS = '_ raised ValueError: No objects to concatenate'
+
+
 def mm_one_column_frames(f):
     """C08-A2: min_ / max_ whose operands hold two one-column frames of different names (np.minimum aligns them BY NAME), or
     frames without a common column beside a Series (`_align_columns` concatenates zero copies of the Series)"""
@@ -742,7 +750,11 @@ def mm_one_column_frames(f):
     ts, one, multi = _kinds(proto.parse(line)[3])
     sx = proto.parse(line)[3]
     heads = [set(kv[0] for kv in x[1][2][1:]) for x in sx[1:] if x[0] == 'df' and len(x[1][2]) > 2]
-    return len(set(one)) >= 2 or (ts >= 1 and len(heads) >= 2 and not set.intersection(*heads))
+    # the finding must show the SYMPTOM of its input class; any other failure on such a line (another exception, a wrong
+    # index, wrong values in a one-column result) is not C08-A2 and stays a violation
+    if len(set(one)) >= 2 and A2_BOTH_NAMES in f.detail:
+        return True
+    return ts >= 1 and len(heads) >= 2 and not set.intersection(*heads) and A2_NO_OBJECTS in f.detail
 
 
 def _kinds(sx):
@@ -760,7 +772,11 @@ def agg_mixed_operands(f):
     if not line.startswith('(ops aggx '):
         return False
     ts, one, multi = _kinds(proto.parse(line)[3])
-    return (ts >= 1 and (len(one) + multi) >= 1) or (len(one) >= 1 and multi >= 1) or len(set(one)) >= 2
+    if not ((ts >= 1 and (len(one) + multi) >= 1) or (len(one) >= 1 and multi >= 1) or len(set(one)) >= 2):
+        return False
+    # ... and the finding must be one of the two symptoms of C08-A1 (all-NaN rows where operands have data; timestamps as extra
+    # columns).  A raise, a wrong index, a value where nobody has data on such a line is NOT this finding and stays a violation
+    return A1_NAN_ROW in f.detail or (A1_ODD_COLUMNS in f.detail and A1_ODD_COLUMNS_END in f.detail)
 
 
 def laws(rng, tier, ctx):
